@@ -192,8 +192,22 @@ func byNameHandler(args []string) (string, []string) {
 			}
 			return strconv.Itoa(v)
 		}()
+		dSaved := *d
 		aa, saa := convByName(d, a, a)
 		ab, sab := convByName(d, a, b)
+		if *d != dSaved {
+			ps.add("C06", "%s date=%s: Convert changed the date it was given to %s", tag, showDate(&dSaved), showDate(d))
+			*d = dSaved
+		}
+		if ab != nil {
+			// the result belongs to the caller: changing it must not change the next answer
+			abSaved := *ab
+			ab.Year, ab.Month, ab.Day = ab.Year+1000, 99, 99
+			if ab2, sab2 := convByName(d, a, b); ab2 == nil || *ab2 != abSaved {
+				ps.add("C06", "%s date=%s A->B gives %s, but after the caller changed that result the same conversion gives %s (results share memory)", tag, showDate(d), showDate(&abSaved), sab2)
+			}
+			*ab = abSaved
+		}
 		var back, bc *lib.Date
 		sback, sbc := sab, sab
 		if ab != nil {
